@@ -31,6 +31,9 @@ type fnNames struct {
 	Params   []string    `json:"params"`
 	FreeVars []string    `json:"freevars,omitempty"`
 	Locals   []localName `json:"locals"`
+	// Loops: one label per loop in header order (the text of the loop's header line from
+	// "range"/"for" on): lets "loop k" clauses follow their loops when loops are reordered
+	Loops []string `json:"loops,omitempty"`
 }
 
 var baselineNames map[string]fnNames
@@ -131,7 +134,112 @@ func currentNames(fn *ssa.Function) fnNames {
 	for _, a := range namedAllocs(fn) {
 		n.Locals = append(n.Locals, localName{a.Comment, types.TypeString(a.Type(), nil)})
 	}
+	n.Loops = loopLabels(fn)
 	return n
+}
+
+var srcLines = map[string][]string{}
+
+// loopLabels: for every loop header (in block order, the order "loop k" counts in) the text of
+// its source line from the keyword "range" (or "for") on; "" when the line cannot be found.
+func loopLabels(fn *ssa.Function) []string {
+	var headers []*ssa.BasicBlock
+	seen := map[*ssa.BasicBlock]bool{}
+	for _, b := range fn.Blocks {
+		for _, succ := range b.Succs {
+			if succ.Dominates(b) && !seen[succ] {
+				seen[succ] = true
+				headers = append(headers, succ)
+			}
+		}
+	}
+	sort.Slice(headers, func(i, j int) bool { return headers[i].Index < headers[j].Index })
+	var out []string
+	for _, h := range headers {
+		label := ""
+		// the header's own instructions, or (range loops: the header only holds phis/next) the
+		// instructions of its predecessors and successors, all on the loop's header line
+		var cands []*ssa.BasicBlock
+		cands = append(cands, h)
+		cands = append(cands, h.Succs...)
+		line := 0
+		file := ""
+		for _, b := range cands {
+			for _, ins := range b.Instrs {
+				if p := ins.Pos(); p.IsValid() {
+					pp := fn.Prog.Fset.Position(p)
+					if line == 0 || (pp.Filename == file && pp.Line < line) {
+						line, file = pp.Line, pp.Filename
+					}
+				}
+			}
+			if line != 0 && b == h {
+				break
+			}
+		}
+		if line > 0 {
+			ls, ok := srcLines[file]
+			if !ok {
+				if b, err := os.ReadFile(file); err == nil {
+					ls = strings.Split(string(b), "\n")
+				}
+				srcLines[file] = ls
+			}
+			if line-1 < len(ls) {
+				t := strings.TrimSpace(ls[line-1])
+				if i := strings.Index(t, "range "); i >= 0 {
+					t = t[i:]
+				} else if i := strings.Index(t, "for "); i >= 0 {
+					t = t[i:]
+				} else {
+					t = ""
+				}
+				label = strings.TrimSuffix(strings.TrimSpace(t), "{")
+				label = strings.TrimSpace(label)
+			}
+		}
+		out = append(out, label)
+	}
+	return out
+}
+
+// loopRemap: contract ordinal -> current ordinal, when the function's loops are the loops the
+// contracts were written for in another order (same labels, all distinct and non-empty).
+func loopRemap(fn *ssa.Function) map[int]int {
+	base, ok := baselineNames[fn.String()]
+	if !ok || len(base.Loops) == 0 {
+		return nil
+	}
+	cur := loopLabels(fn)
+	if len(cur) != len(base.Loops) {
+		return nil
+	}
+	idx := map[string]int{}
+	for i, l := range cur {
+		if l == "" {
+			return nil
+		}
+		if _, dup := idx[l]; dup {
+			return nil
+		}
+		idx[l] = i
+	}
+	out := map[int]int{}
+	moved := false
+	for k, l := range base.Loops {
+		i, ok := idx[l]
+		if !ok {
+			return nil
+		}
+		out[k] = i
+		if i != k {
+			moved = true
+		}
+	}
+	if !moved {
+		return nil
+	}
+	return out
 }
 
 // applyNameAliases is called once the verifier knows the function's parameters and named cells.
